@@ -150,8 +150,14 @@ func loadSpecLib(files []string) (*SpecLib, error) {
 				lib.Funcs[sf.Name] = sf
 			case "declare-fun":
 				sf := &SpecFunc{Name: ch[1], Ret: ch[3]}
-				for i, p := range sexpChildren(ch[2]) {
-					sf.Params = append(sf.Params, SpecParam{Name: fmt.Sprintf("p%d", i), Sort: p})
+				ps := sexpChildren(ch[2])
+				for i := 0; i < len(ps); i++ {
+					if ps[i] == "(Array Int (_ BitVec 8))" && i+2 < len(ps) && ps[i+1] == "Int" && ps[i+2] == "Int" {
+						sf.Params = append(sf.Params, SpecParam{Name: fmt.Sprintf("b%d!arr", i), Sort: ps[i]}, SpecParam{Name: fmt.Sprintf("b%d!off", i), Sort: "Int"}, SpecParam{Name: fmt.Sprintf("b%d!len", i), Sort: "Int"})
+						i += 2
+						continue
+					}
+					sf.Params = append(sf.Params, SpecParam{Name: fmt.Sprintf("p%d", i), Sort: ps[i]})
 				}
 				lib.Funcs[sf.Name] = sf
 			case "declare-const":
@@ -845,6 +851,45 @@ func (e *Env) call(v *ast.CallExpr, want *Sort) T {
 		}
 		t := e.compile(v.Args[0], nil)
 		return T{S: convertTerm(t.S, t.So, target), So: target}
+	case "step_old", "step_new":
+		key := exprString(v.Args[0])
+		hs := g.resolveDesignator(key, e.pkg)
+		if len(hs) != 1 {
+			return e.fail("bad location %s", key)
+		}
+		sv, ok := g.stepVals[hs[0]]
+		if !ok {
+			return e.fail("no atomic step on %s in this function", key)
+		}
+		if name == "step_old" {
+			return sv[0]
+		}
+		return sv[1]
+	case "upd":
+		if nargs != 3 {
+			return e.fail("upd takes three arguments")
+		}
+		a := e.compile(v.Args[0], nil)
+		ch := sexpChildren(a.So.Name)
+		if len(ch) != 3 || ch[0] != "Array" {
+			return e.fail("upd on non-array sort %s", a.So.Name)
+		}
+		i := e.compile(v.Args[1], rawSort(ch[1]))
+		x := e.compile(v.Args[2], rawSort(ch[2]))
+		return T{S: app("store", a.S, i.S, x.S), So: a.So}
+	case "asptr":
+		// asptr(x, "*pkg.T"): payload of interface value x viewed as a pointer of that type
+		t := e.compile(v.Args[0], SIface)
+		lit, ok := v.Args[1].(*ast.BasicLit)
+		if !ok {
+			return e.fail("asptr needs a string literal")
+		}
+		s, _ := strconv.Unquote(lit.Value)
+		gt := g.prog.lookupType(s)
+		if gt == nil {
+			return e.fail("asptr: unknown type %s", s)
+		}
+		return T{S: app("iptr", t.S), So: SRef, GoT: gt}
 	case "fresh":
 		t := e.compile(v.Args[0], nil)
 		a0 := g.stGet(e.old, "alloc", SMath)
@@ -883,7 +928,26 @@ func (e *Env) call(v *ast.CallExpr, want *Sort) T {
 		}
 		return T{S: and(not(app("=", t.S, "inil")), app("=", app("itag", t.S), fmt.Sprint(tag))), So: SBool}
 	}
+	if pd, ok := g.cs.Preds[name]; ok {
+		if nargs != len(pd.Params) {
+			return e.fail("wrong number of arguments to predicate %s", name)
+		}
+		c := e.child()
+		c.vars = map[string]T{}
+		for i, pn := range pd.Params {
+			c.vars[pn] = e.compile(v.Args[i], nil)
+		}
+		if pp := g.prog.typesPkg(pd.Pkg); pp != nil {
+			c.pkg = pp
+		}
+		t := c.compileBool(pd.Body.Expr)
+		e.errs = append(e.errs, c.errs...)
+		return t
+	}
 	// spec function
+	if name == "err_is" {
+		g.needErrIs()
+	}
 	sf, ok := g.lib.Funcs[name]
 	if !ok {
 		return e.fail("unknown spec function %s", name)
